@@ -433,7 +433,16 @@ def run_case(case, rec):
         rec.skip("residues.same-set", "not single-conformer")
         return
     amap, order = abstract_map(rows)
-    pdb_text, cif_text = emit.emit_pdb(rows), emit.emit_cif(rows)
+    cif_rows = rows
+    if int(core.chash(desc)[6:8], 16) % 4 == 1:
+        # mmCIF whose label_comp_id differs from auth_comp_id for a few residues (the author's name is the residue's name
+        # in every reading, as it is the only name a PDB file has)
+        keys = sorted({(r["chain"], r["resseq"], r["icode"]) for r in rows}, key=str)
+        chosen = set(keys[::5][:4])
+        swap = {"A": "U", "U": "A", "G": "C", "C": "G", "DA": "DT", "DT": "DA", "DG": "DC", "DC": "DG"}
+        cif_rows = [dict(r, label_resname=swap.get(r["resname"], "N")) if (r["chain"], r["resseq"], r["icode"]) in chosen else r for r in rows]
+        desc["label-names-differ-for"] = len(chosen)
+    pdb_text, cif_text = emit.emit_pdb(rows), emit.emit_cif(cif_rows)
     tv = int(core.chash(desc)[4:6], 16) % 12
     if tv in (1, 2, 3, 4):
         # the same records with Windows line endings / stripped trailing blanks / no final newline / tabs
